@@ -138,6 +138,7 @@ fn real_main(args: &[String]) -> i32 {
             println!("{}", engine::digest_main(&sc, tier, seed, runs, workers));
             0
         }
+        "selftest" => rl2tp_dst::selftest::selftest_main(args.iter().any(|a| a == "full")),
         "list" => {
             for s in props::all() {
                 println!("{} {} quick_runs={} thorough_runs={}", s.id, s.level, (s.runs)(Tier::Quick), (s.runs)(Tier::Thorough));
